@@ -85,6 +85,28 @@ def run(ck):
             emit(f, symsubs, "MG", iv)
             emit(f, symsubs, "MS", iv)
             n_interp += 3
+    # ---- interpretations of a BINARY function whose actual arguments mention its formal parameters
+    # (simultaneous, not sequential, binding of the formals)
+    y = mgr.Symbol("y", INT)
+    pb = mgr.Symbol("p", BOOL)
+    a0, b0 = mgr.Symbol("a0", INT), mgr.Symbol("b0", INT)
+    hsym = mgr.Symbol("h", FunctionType(INT, [INT, INT]))
+    H = lambda u, v: mgr.Function(hsym, [u, v])
+    hterms = [mgr.Equals(H(y, x), mgr.Int(0)), mgr.LE(H(mgr.Plus(y, mgr.Int(1)), mgr.Int(0)), x), mgr.Equals(H(x, y), H(y, x)),
+              mgr.LE(H(H(x, y), x), y), mgr.ForAll([x], mgr.LE(H(x, y), H(y, x))), mgr.Function(gsym, [H(y, x)]),
+              mgr.And(pb, mgr.LT(H(mgr.Function(fsym, [y]), mgr.Times(x, mgr.Int(2))), H(x, x))),
+              mgr.Exists([y], mgr.Equals(H(y, mgr.Plus(x, y)), x))]
+    hinterps = [{hsym: ([x, y], mgr.Minus(x, y))}, {hsym: ([y, x], mgr.Minus(x, y))},
+                {hsym: ([x, y], mgr.Ite(mgr.LE(x, y), x, mgr.Plus(y, mgr.Int(1))))},
+                {hsym: ([a0, b0], mgr.Plus(a0, mgr.Times(mgr.Int(2), b0)))},
+                {hsym: ([x, y], mgr.Plus(y, y)), fsym: ([y], mgr.Minus(y, mgr.Int(1)))},
+                {hsym: ([y, z], mgr.Minus(mgr.Plus(y, y), z))}]
+    for t in hterms:
+        for iv in hinterps:
+            for subs in ({}, {x: mgr.Plus(y, mgr.Int(1))}, {y: x, pb: mgr.LE(x, y)}):
+                emit(t, subs, "MG", iv)
+                emit(t, subs, "MS", iv)
+                n_interp += 2
     verdicts, st = tlc.validate_events("Trace_Pure", evs, constants={"Seed": ck.seed % 1000, "Cap": 36 if quick else 100})
     ck.add_tlc(st)
     byid = {e["id"]: e for e in evs}
